@@ -113,7 +113,7 @@ MdecObs(k, cap, s) == LET d == DecodeOne(k, s, cap)
 BdecObs(k, b, s) == LET d == DecodeOne(k, s, b[1] - b[2])
                     IN IF d[1] >= 0
                        THEN <<d[1], d[2], b[2] + d[1], b[3], -7>> \o Fill(b[2], 171) \o d[3] \o Fill(b[1] - b[2] - d[1], 170)
-                       ELSE <<d[1], -7>>
+                       ELSE <<d[1], b[2], b[3], 0, -7>>        \* refused: bookkeeping and filled region as they were (R5)
 RECURSIVE SdecFrames(_, _)
 SdecFrames(k, s) == IF s = <<>> THEN <<>>
                     ELSE LET d == DecodeOne(k, s, 100000)
